@@ -17,7 +17,7 @@ import vf
 import _chaincfg as cc   # parallel() / lock_staging() helpers
 
 LOCAL6 = [1, 0, 1, 1, 0, 1]
-IDS6 = [[0, 0, 0, 0, 0, 0], [1, 0, 1, 0, 0, 1], [1, 1, 0, 0, 0, 0], [1, 0, 0, 1, 0, 1], [1, 0, 1, 0, 0, 0],
+IDS6 = [[0, 0, 0, 0, 0, 0], [1, 0, 1, 0, 0, 1], [1, 0, 1, 0, 1, 0], [1, 0, 0, 1, 0, 1], [1, 0, 1, 0, 0, 0],
         [1, 0, 1, 0, 1, 1], [1, 0, 1, 1, 1, 0], [1, 0, 1, 1, 0, 0], [1, 0, 1, 1, 0, 1], [1, 0, 1, 1, 1, 1]]
 TAIL154 = [(i * 7 + (i // 3)) % 2 for i in range(154)]  # the low 154 bits shared by every model id and the local id
 
@@ -85,15 +85,15 @@ def run_paths(ctx, binary, local, bits, k, paths, tag):
 def judge_step(ctx, what, st, o, bits, local, k, rp):
     """property predicates on one real observation; returns True if they all hold"""
     if o["res"] in ("panic", "err"):
-        ctx.violation("%s:%s:%s" % (what, st["name"], o["res"]), {"err": o.get("err")}, rp)
+        cc.viol(ctx, "%s:%s:%s" % (what, st["name"], o["res"]), {"err": o.get("err")}, rp)
         return False
     bad = table_preds(o["buckets"], bits, local, k)
     for b in bad:
-        ctx.violation("%s:%s:%s:k%d" % (what, st["name"], b, k), {"buckets": o["buckets"]}, rp)
+        cc.viol(ctx, "%s:%s:%s:k%d" % (what, st["name"], b, k), {"buckets": o["buckets"]}, rp)
     if st["name"] == "Nearest":
         nb = nearest_preds(o["out"], st["t"], st["n"], o["buckets"], bits)
         for b in nb:
-            ctx.violation("%s:%s:k%d" % (what, b, k), {"target": st["t"], "count": st["n"], "out": o["out"], "buckets": o["buckets"]}, rp)
+            cc.viol(ctx, "%s:%s:k%d" % (what, b, k), {"target": st["t"], "count": st["n"], "out": o["out"], "buckets": o["buckets"]}, rp)
         bad += nb
     return not bad
 
@@ -252,6 +252,7 @@ def self_test(ctx, path):
         if v["accepted"] != want:
             ctx.infra("binding self-test: %s trace %s" % (name, "accepted" if v["accepted"] else "rejected"))
     cc.parallel([lambda a=a: one(*a) for a in (("corrupt", bad1, False), ("drop", bad2, False), ("intact", ev, True))])
+    ctx.log("binding self-test: corrupted and dropped-event traces must be rejected (the two Postcondition errors above are expected), intact prefix accepted")
 
 
 def run(ctx):
